@@ -245,17 +245,17 @@ pub fn add_sections(rep: &mut Report, prop: &str, thorough: bool, conformant_onl
         // subject: every attribute type (6 standard, serialNumber, emailAddress, domainComponent as custom OIDs) x every
         // string kind x value shapes, alone and after another attribute: the request's subject says exactly that
         let types = [DnTypeSpec::C, DnTypeSpec::St, DnTypeSpec::L, DnTypeSpec::O, DnTypeSpec::Ou, DnTypeSpec::Cn, DnTypeSpec::Custom(vec![2, 5, 4, 5]), DnTypeSpec::Custom(vec![1, 2, 840, 113549, 1, 9, 1]), DnTypeSpec::Custom(vec![0, 9, 2342, 19200300, 100, 1, 25])];
-        let values = ["", "D", "US", "de", "U1", "12", "USA", "a b", "x@y.z", "1.2.3.4", "example"];
+        let values = crate::certspace::value_shapes();
         let mut cases: Vec<DnSpec> = Vec::new();
         for t in &types {
             for k in ALL_STR_KINDS {
-                for v in values {
+                for v in &values {
                     cases.push(DnSpec(vec![(t.clone(), k, v.to_string())]));
                     cases.push(DnSpec(vec![(DnTypeSpec::O, StrKind::Utf8, "first".into()), (t.clone(), k, v.to_string())]));
                 }
             }
         }
-        let sec = Section::new("csr/sweep/dn-type x string-kind x value-shape", "every attribute type (6 standard; serialNumber, emailAddress, domainComponent as custom OIDs) x every string kind x 11 value shapes, alone and after another attribute, as the subject of a request");
+        let sec = Section::new("csr/sweep/dn-type x string-kind x value-shape", "every attribute type (6 standard; serialNumber, emailAddress, domainComponent as custom OIDs) x every string kind x 21 value shapes (incl. NUL, blank, line break, dot, U+FEFF at either edge), alone and after another attribute, as the subject of a request");
         run::sweep_cases(&sec, &cases, &|c| format!("dn={:?}", c.0), &|c| {
             let mut st = CertState::default();
             st.dn = c.clone();
